@@ -4,6 +4,7 @@ import (
 	"context"
 	"crypto"
 	"crypto/tls"
+	"crypto/x509"
 	"fmt"
 	"io"
 	"net"
@@ -21,6 +22,7 @@ import (
 	"github.com/libp2p/go-libp2p/p2p/transport/quicreuse"
 	libp2pwebtransport "github.com/libp2p/go-libp2p/p2p/transport/webtransport"
 	ma "github.com/multiformats/go-multiaddr"
+	manet "github.com/multiformats/go-multiaddr/net"
 	"github.com/multiformats/go-multibase"
 	"github.com/multiformats/go-multihash"
 	"github.com/quic-go/quic-go"
@@ -552,17 +554,20 @@ func realListenerCases(r *run.R, d *dialer, now time.Time) {
 			stop()
 			continue
 		}
-		// which certificate is served now: by determinism, a manager of our own at the same instant
-		clk := newStepClock(at)
-		m, err := clk.newManager(key)
-		if err != nil {
-			r.Inconclusive("dial/real/setup", err.Error())
+		// which certificate is served: fetched with a plain QUIC/TLS probe that accepts anything
+		chainRaw, err := fetchServedChain(base)
+		if err != nil || len(chainRaw) == 0 {
+			r.Inconclusive(fmt.Sprintf("dial/real/%d", i), fmt.Sprintf("probe could not fetch the served certificate: %v", err))
 			stop()
-			return
+			continue
 		}
-		servedRaw := m.v.GetConfig().Certificates[0].Certificate[0]
-		m.v.Close()
-		served := &genCert{kind: certKind{name: "listener-own"}, raw: servedRaw, window: "current", parses: true, lifetimeOK: true, currentlyValid: true}
+		servedRaw := chainRaw[0]
+		served, edgeNear := labelFromDER(servedRaw, now)
+		if edgeNear {
+			r.Count("dial_real_skipped_validity_edge_near_now", 1)
+			stop()
+			continue
+		}
 		bogus := sha([]byte("foobar"))
 		for _, dc := range []dialCase{
 			{"exact", own, own, false},
@@ -639,6 +644,59 @@ func realListenerCases(r *run.R, d *dialer, now time.Time) {
 	}
 }
 
+// fetchServedChain connects with plain QUIC/TLS (no pinning, nothing verified) and returns the chain the
+// listener presents.
+func fetchServedChain(base ma.Multiaddr) ([][]byte, error) {
+	_, hostport, err := manet.DialArgs(base)
+	if err != nil {
+		return nil, err
+	}
+	var got [][]byte
+	ctx, cancel := context.WithTimeout(context.Background(), 20*time.Second)
+	defer cancel()
+	conn, err := quic.DialAddr(ctx, hostport, &tls.Config{InsecureSkipVerify: true, NextProtos: []string{http3.NextProtoH3},
+		VerifyPeerCertificate: func(raw [][]byte, _ [][]*x509.Certificate) error {
+			for _, c := range raw {
+				got = append(got, append([]byte{}, c...))
+			}
+			return nil
+		}}, &quic.Config{})
+	if err == nil {
+		conn.CloseWithError(0, "")
+	}
+	if got != nil {
+		return got, nil
+	}
+	return nil, err
+}
+
+// labelFromDER derives the statement's labels from a certificate's own fields; edgeNear reports a
+// validity edge within 5 minutes of now (then timing could matter and the case is skipped).
+func labelFromDER(raw []byte, now time.Time) (*genCert, bool) {
+	g := &genCert{kind: certKind{name: "fetched"}, raw: raw, window: "as-served"}
+	c, err := x509.ParseCertificate(raw)
+	if err != nil {
+		return g, false
+	}
+	g.parses = true
+	g.nb, g.na = c.NotBefore, c.NotAfter
+	g.kind.rsaKey = c.PublicKeyAlgorithm == x509.RSA
+	g.lifetimeOK = c.NotAfter.Sub(c.NotBefore) <= maxLifetime
+	g.currentlyValid = !now.Before(c.NotBefore) && !now.After(c.NotAfter)
+	if !g.currentlyValid {
+		g.window = "not-yet-valid"
+		if now.After(c.NotAfter) {
+			g.window = "expired"
+		}
+	}
+	for _, e := range []time.Time{c.NotBefore, c.NotAfter} {
+		if d := now.Sub(e); d > -5*time.Minute && d < 5*time.Minute {
+			return g, true
+		}
+	}
+	return g, false
+}
+
 func realJudge(r *run.R, caseID string, served *genCert, dc dialCase, completed bool, errText string) {
 	r.Eval(1)
 	pinnedOK := containsSpec(dc.addr, sha(served.raw))
@@ -649,16 +707,19 @@ func realJudge(r *run.R, caseID string, served *genCert, dc dialCase, completed 
 		}
 	}
 	detail := map[string]any{"dialed_hashes": fmt.Sprint(dc.addr), "listener_address_hashes": fmt.Sprint(dc.confirm), "served_sha256": sha(served.raw).String(), "dial_error": errText}
+	rule := served.brokenRule()
 	switch {
 	case completed && !pinnedOK:
 		r.Violation("dial:completed-served-certificate-not-pinned", caseID, "dial to the real listener completed although the SHA-256 of the served certificate is not in the dialed address", detail)
+	case completed && rule != "":
+		r.Violation("dial:completed-invalid-certificate:"+rule, caseID, "dial to the real listener completed although the served certificate breaks rule "+rule, detail)
 	case completed && len(unconfirmed) > 0:
 		r.Violation("dial:completed-with-unconfirmed-hash", caseID, fmt.Sprintf("dial to the real listener completed although it does not confirm %v", unconfirmed), detail)
 	case completed:
 		r.Count("dial_completed_allowed", 1)
 		r.Count("dial_real_listener_completed", 1)
 		r.Nontrivial(caseID)
-	case pinnedOK && len(unconfirmed) == 0:
+	case pinnedOK && len(unconfirmed) == 0 && rule == "":
 		r.Count("dial_failed_although_allowed", 1)
 		r.Extra("dial_failed_although_allowed_last", caseID+": "+errText)
 	default:
